@@ -386,6 +386,17 @@ def run(ctx: Ctx) -> None:
                         continue
                     e = (exp @ np.append(p, 1.0))[:3]
                     ctx.check(np.abs(np.asarray(out, dtype=float) - e).max() <= ptol(e, p) * 10, "C18/registry_answer_not_direct_or_inverse_entry", dict(info, out=np.asarray(out).tolist(), exp=e.tolist()), "TransformDict.transform")
+                    if key_kind == "key":
+                        # a key object kept by the caller and used again (a loop over points, a cached key): same question,
+                        # same answer, and the caller's key still names the frames it was built with
+                        for rep in range(2):
+                            ctx.count("C18.reused_key_objects")
+                            try:
+                                out_r = td.transform(key, p.copy())
+                                ok_r = np.abs(np.asarray(out_r, dtype=float) - e).max() <= ptol(e, p) * 10
+                            except Exception as ex:  # noqa: BLE001
+                                out_r, ok_r = f"{type(ex).__name__}: {str(ex)[:80]}", False
+                            ctx.check(ok_r, "C18/registry_answer_changes_when_the_same_key_object_is_used_again", dict(info, repeat=rep + 1, first=np.asarray(out).tolist(), again=out_r if isinstance(out_r, str) else np.asarray(out_r).tolist()), "TransformDict.transform")
                     ctx.case(("registry", kind, hows[0], hows[1], key_kind), nontrivial=True)
         # ---- call forms: keyword and positional spellings of one query answer alike (direct, inverse and X->X)
         for idx in ctx.indices("call_forms", 300 if ctx.quick else 60000):
